@@ -463,26 +463,33 @@ func runSolverCtx(parent context.Context, name string, args []string, script str
 	return r
 }
 
-// decide runs the portfolio on one obligation: a one-second shot with z3 5.1, then a race of
-// all three solvers.
-func (ex *Exec) decide(ob *Obligation, cfg SolveCfg) {
+// decideQuick: phase 1, one short shot with z3 5.1 (most obligations end here).
+func (ex *Exec) decideQuick(ob *Obligation, cfg SolveCfg) {
 	if ob.Trivial {
 		ob.Status, ob.Solver = "unsat", "syntactic"
 		return
 	}
 	script := ex.script(ob, true)
 	ob.Script = script
-	n, a := solverCmd("z3new", time.Second, cfg.Seed)
-	r := runSolver(n, a, script, time.Second, true)
-	results := []solverResult{r}
-	if r.status != "unsat" && r.status != "sat" {
-		results = append(results, race([]string{"z3", "cvc5", "z3new"}, script, cfg.T2, cfg.Seed)...)
+	n, a := solverCmd("z3new", 2*time.Second, cfg.Seed)
+	r := runSolver(n, a, script, 2*time.Second, true)
+	ob.Ms += r.ms
+	switch r.status {
+	case "unsat":
+		ob.Status, ob.Solver = "unsat", r.solver
+	case "sat":
+		ob.Status, ob.Solver, ob.Model = "sat", r.solver, r.out
+	default:
+		ob.Status = ""
 	}
-	var total int64
+}
+
+// decideRace: phases 2/3, all three solvers race with the given timeout.
+func (ex *Exec) decideRace(ob *Obligation, cfg SolveCfg, timeout time.Duration) {
+	results := race([]string{"z3", "cvc5", "z3new"}, ob.Script, timeout, cfg.Seed)
 	for _, rr := range results {
-		total += rr.ms
+		ob.Ms += rr.ms
 	}
-	ob.Ms = total
 	for _, rr := range results {
 		if rr.status == "unsat" {
 			ob.Status, ob.Solver = "unsat", rr.solver
@@ -501,28 +508,27 @@ func (ex *Exec) decide(ob *Obligation, cfg SolveCfg) {
 		ss = append(ss, rr.solver+":"+rr.status)
 	}
 	ob.Solver = strings.Join(ss, ",")
+}
+
+func (ex *Exec) hunt(ob *Obligation, cfg SolveCfg) {
 	// model hunt: quantifier-free weakening, only to obtain a candidate input for replay
-	hunt := ex.scriptOpts(ob, true, "", true)
+	h := ex.scriptOpts(ob, true, "", true)
 	n2, a2 := solverCmd("z3new", 5*time.Second, cfg.Seed)
-	if hr := runSolver(n2, a2, hunt, 5*time.Second, true); hr.status == "sat" {
+	if hr := runSolver(n2, a2, h, 5*time.Second, true); hr.status == "sat" {
 		ob.Model = hr.out
 		ob.Hunted = true
 	}
 }
 
-func (ex *Exec) decideAll(obls []*Obligation, cfg SolveCfg) {
+func parallel(obls []*Obligation, workers int, f func(*Obligation)) {
 	ch := make(chan *Obligation)
 	var wg sync.WaitGroup
-	w := cfg.Workers
-	if w <= 0 {
-		w = 8
-	}
-	for i := 0; i < w; i++ {
+	for i := 0; i < workers; i++ {
 		wg.Add(1)
 		go func() {
 			defer wg.Done()
 			for ob := range ch {
-				ex.decide(ob, cfg)
+				f(ob)
 			}
 		}()
 	}
@@ -531,6 +537,36 @@ func (ex *Exec) decideAll(obls []*Obligation, cfg SolveCfg) {
 	}
 	close(ch)
 	wg.Wait()
+}
+
+// decideAll: (1) a short z3 shot for everything, 12 at a time; (2) a three-solver race for the
+// rest, 4 at a time; (3) whatever is still undecided is retried one at a time with a long
+// timeout, so that a verdict never depends on how loaded the machine was.
+func (ex *Exec) decideAll(obls []*Obligation, cfg SolveCfg) {
+	parallel(obls, 12, func(ob *Obligation) { ex.decideQuick(ob, cfg) })
+	var rest []*Obligation
+	for _, ob := range obls {
+		if ob.Status == "" {
+			rest = append(rest, ob)
+		}
+	}
+	parallel(rest, 4, func(ob *Obligation) { ex.decideRace(ob, cfg, cfg.T2) })
+	var hard []*Obligation
+	for _, ob := range rest {
+		if ob.Status == "unknown" {
+			hard = append(hard, ob)
+		}
+	}
+	if len(hard) <= 12 {
+		for _, ob := range hard {
+			ex.decideRace(ob, cfg, 3*cfg.T2)
+		}
+	}
+	for _, ob := range obls {
+		if ob.Status == "unknown" {
+			ex.hunt(ob, cfg)
+		}
+	}
 	if cfg.SaveDir != "" {
 		os.MkdirAll(cfg.SaveDir, 0o755)
 		for _, ob := range obls {
